@@ -154,3 +154,10 @@ func main() {
 	}
 	s.Gen(tier, seed)
 }
+
+func (r *Rng) Pick2(a, b string) string {
+	if r.Bool() {
+		return a
+	}
+	return b
+}
